@@ -131,6 +131,27 @@ def run(ctx):
     from .c01 import key_size_operand_rule
     key_size_operand_rule(ctx, mpq, "C06")
 
+    # the (listfile) is a list of lines: whether a name is already listed (update) or which line is dropped (remove) is decided per
+    # line — a substring test on the whole text takes `config.txt` for listed once `data\\config.txt` is
+    R_lf = ctx.rule("C06.listfile-membership-per-line", "update_listfile / remove_from_listfile never test or edit the listfile text with str::contains / replace / find on a name; they go line by line", floor=2)
+    for fn_name in ("update_listfile", "remove_from_listfile"):
+        lf = mpq.fns.get("wow_mpq::modification::MutableArchive::" + fn_name)
+        if lf is None or not lf.hir:
+            ctx.bad(R_lf, "%s|missing" % fn_name, "-", "function not found", "anchor gone")
+            continue
+        ctx.saw_fn(lf)
+        whole = [x for x in hirq.walk(lf.hir["body"]) if x.get("k") == "mcall" and x["m"] in ("contains", "replace", "replacen", "find", "rfind", "matches", "split") and x.get("args")
+                 and hirq.strip(x["args"][0]).get("k") not in ("lit",) and not any(y.get("k") == "mcall" and y["m"] in ("lines", "split_terminator") for y in hirq.walk(x["recv"]))
+                 and not (hirq.strip(x["recv"]).get("k") == "path" and re.fullmatch(r"line|l|entry|name", hirq.strip(x["recv"])["res"].get("local") or ""))]
+        per_line = any(x.get("k") == "mcall" and x["m"] == "lines" for x in hirq.walk(lf.hir["body"]))
+        if whole:
+            ctx.bad(R_lf, "%s|whole-text-%s" % (fn_name, whole[0]["m"]), "%s:%d" % (lf.file, whole[0].get("ln") or 0), "`%s` applies `%s` to the whole listfile text" % (fn_name, hirq.render(whole[0])[:60]),
+                    "a name that is a substring of a listed name (`config.txt` vs `data\\config.txt`) is taken for listed / removed with it: the file exists in the tables but list() does not report it and compact() drops it")
+        elif per_line:
+            ctx.ok(R_lf, {"fn": fn_name, "membership": "per line"})
+        else:
+            ctx.bad(R_lf, "%s|no-line-walk" % fn_name, lf.where, "no `.lines()` walk over the listfile text", "shape changed")
+
     # failure atomicity
     for name in ("add_file_data", "remove_file", "rename_file"):
         f = mpq.fns.get(MUT + name)
